@@ -732,3 +732,128 @@ func wholeProgramEffectFilter(r *Run) {
 
 // mechanismWrites: calls in precompile handlers that write to a store as part of the precompile mechanism.
 var mechanismWrites = map[string]string{}
+
+// wholeProgramBankDebits (C08 thorough): rule W5 — the premise the quick rules trust ("the bank keeper
+// consults LockedCoins on every debit") is re-derived from the pinned cosmos-sdk source.
+func wholeProgramBankDebits(r *Run) {
+	P := r.P
+	r.Rule("W5", "whole-program premise (cosmos-sdk x/bank/keeper with bodies): an account balance is written only by setBalance/initBalances; setBalance is called only by addCoins (credit), subUnlockedCoins and DelegateCoins (UndelegateCoins credits through addCoins); in subUnlockedCoins every setBalance is preceded by LockedCoins(ctx, addr) whose result feeds the spendable comparison, and LockedCoins asks the account's VestingAccount.LockedCoins(block time); the one debit that does not consult it, DelegateCoins, is called only by DelegateCoinsFromAccountToModule, which only the staking keeper's Delegate calls (the entry that C08 R3/R4 guard); Haqq code calls none of these debit primitives directly")
+	w, err := loadWhole(P.RepoDir, P.Tags)
+	if err != nil {
+		r.Fail("whole-program load failed: %v", err)
+		return
+	}
+	fn := func(name string) *ssa.Function { return w.byName[name] }
+	bk := "(" + sdkBankKeeper + ".BaseKeeper)."
+	sk := "(" + sdkBankKeeper + ".BaseSendKeeper)."
+	vk := "(" + sdkBankKeeper + ".BaseViewKeeper)."
+	need := map[string]*ssa.Function{}
+	for _, n := range []string{sk + "setBalance", sk + "addCoins", sk + "subUnlockedCoins", sk + "initBalances", bk + "DelegateCoins", bk + "UndelegateCoins", bk + "DelegateCoinsFromAccountToModule", vk + "LockedCoins"} {
+		f := fn(n)
+		if f == nil || f.Blocks == nil {
+			r.Fail("whole-program premise: %s not found with a body", n)
+			return
+		}
+		need[n] = f
+	}
+	callersOf := func(f *ssa.Function) map[string]bool {
+		out := map[string]bool{}
+		if n := w.CG.Nodes[f]; n != nil {
+			for _, e := range n.In {
+				c := e.Caller.Func
+				if c.Synthetic != "" && strings.Contains(c.Synthetic, "wrapper") {
+					// pointer-receiver / promoted-method wrappers: attribute to their own callers
+					if n2 := w.CG.Nodes[c]; n2 != nil {
+						for _, e2 := range n2.In {
+							out[e2.Caller.Func.String()] = true
+						}
+					}
+					continue
+				}
+				out[c.String()] = true
+			}
+		}
+		return out
+	}
+	notTest := func(m map[string]bool) []string {
+		var out []string
+		for k := range m {
+			if strings.Contains(k, "/testutil") || strings.Contains(k, "/simulation") || strings.Contains(k, "simapp") || strings.Contains(k, "_test") {
+				continue
+			}
+			out = append(out, k)
+		}
+		sort.Strings(out)
+		return out
+	}
+	subset := func(got []string, allowed ...string) []string {
+		al := map[string]bool{}
+		for _, a := range allowed {
+			al[a] = true
+		}
+		var extra []string
+		for _, g := range got {
+			if !al[g] {
+				extra = append(extra, g)
+			}
+		}
+		return extra
+	}
+	// (a) balance writers
+	targets, _ := w.bankBalanceWriters()
+	var tn []string
+	for _, t := range targets {
+		tn = append(tn, t.String())
+	}
+	r.Check(len(subset(tn, sk+"setBalance", sk+"initBalances")) == 0 && len(tn) >= 1, "W5", "bank#balance-writers", "", "account balances are written by "+strings.Join(tn, ", "),
+		"another function of the SDK bank keeper writes account balances: "+strings.Join(subset(tn, sk+"setBalance", sk+"initBalances"), ", "))
+	// (b) callers of setBalance
+	cs := notTest(callersOf(need[sk+"setBalance"]))
+	extra := subset(cs, sk+"addCoins", sk+"subUnlockedCoins", bk+"DelegateCoins", bk+"UndelegateCoins")
+	r.Check(len(extra) == 0 && len(cs) >= 3, "W5", "bank#setBalance-callers", "", "setBalance ← "+strings.Join(cs, ", "),
+		"setBalance's callers are ["+strings.Join(cs, ", ")+"]; expected exactly addCoins/subUnlockedCoins/DelegateCoins/UndelegateCoins (unexpected: "+strings.Join(extra, ", ")+") — a debit path that may not consult LockedCoins")
+	// (c) subUnlockedCoins: LockedCoins precedes every setBalance and feeds the comparison
+	sub := need[sk+"subUnlockedCoins"]
+	isLocked := isCallMatching(func(ci CallInfo) bool { return ci.Name == "LockedCoins" })
+	isSet := isCallMatching(func(ci CallInfo) bool { return ci.Name == "setBalance" })
+	wit := Precedes(sub, isLocked, isSet, nil)
+	feeds := false
+	for _, c := range findCalls(sub, func(ci CallInfo) bool { return ci.Name == "SafeSub" }) {
+		if backSlice(callArgs(c)...).HasCall(func(ci CallInfo) bool { return ci.Name == "LockedCoins" }) {
+			feeds = true
+		}
+	}
+	r.Check(wit == nil && feeds && len(findCalls(sub, func(ci CallInfo) bool { return ci.Name == "setBalance" })) > 0, "W5", "bank#subUnlockedCoins-consults-locked", "", "LockedCoins precedes every setBalance and feeds the spendable comparison",
+		"subUnlockedCoins of the pinned SDK no longer reads LockedCoins before every balance write / no longer subtracts it from the balance: vesting locks are not enforced on bank debits")
+	// (d) LockedCoins asks the vesting account
+	lc := need[vk+"LockedCoins"]
+	asks := false
+	eachInstr(lc, func(in ssa.Instruction) {
+		if ta, ok := in.(*ssa.TypeAssert); ok && namedName(ta.AssertedType) == "VestingAccount" {
+			asks = true
+		}
+	})
+	callsLocked := len(findCalls(lc, func(ci CallInfo) bool { return ci.Name == "LockedCoins" && ci.Invoke })) > 0
+	r.Check(asks && callsLocked, "W5", "bank#LockedCoins-asks-account", "", "LockedCoins = account.(VestingAccount).LockedCoins(block time)",
+		"the SDK's LockedCoins no longer asks the account's VestingAccount implementation")
+	// (e) the unguarded debit
+	dc := notTest(callersOf(need[bk+"DelegateCoins"]))
+	extra = subset(dc, bk+"DelegateCoinsFromAccountToModule")
+	r.Check(len(extra) == 0 && len(dc) >= 1, "W5", "bank#DelegateCoins-callers", "", "DelegateCoins ← "+strings.Join(dc, ", "),
+		"DelegateCoins (the debit that moves locked coins) has further callers: "+strings.Join(extra, ", "))
+	dm := notTest(callersOf(need[bk+"DelegateCoinsFromAccountToModule"]))
+	var extraDM []string
+	for _, c := range dm {
+		if c == "(github.com/cosmos/cosmos-sdk/x/staking/keeper.Keeper).Delegate" {
+			continue
+		}
+		// wrappers of keeper types that embed the bank keeper forward the call (Haqq's x/bank wrapper): follow one level
+		if strings.Contains(c, ".DelegateCoinsFromAccountToModule") {
+			continue
+		}
+		extraDM = append(extraDM, c)
+	}
+	r.Check(len(extraDM) == 0 && len(dm) >= 1, "W5", "bank#DelegateCoinsFromAccountToModule-callers", "", "DelegateCoinsFromAccountToModule ← "+strings.Join(dm, ", "),
+		"DelegateCoinsFromAccountToModule is called by something other than the staking keeper's Delegate: "+strings.Join(extraDM, ", ")+" — locked/unvested coins can leave the account around the delegation checks of C08 R3/R4")
+	r.Count("W5 SDK bank premise clauses checked", 6)
+}
